@@ -1936,6 +1936,27 @@ def k_readval( ctx ):
             res.cells += 1
             if out.value[5] != want:
                 wrong.append(( kind, status, out.value[5], want ))
+    # ... and the summary is computed for EVERY outcome: the chain that tells the kinds of reply apart ( inside the re-raising try ) is run on a
+    # refused read - whose harvested value is None - as well: an operation on it that raises ( len( None )) aborts the whole operate() /
+    # process() call at the first refused read, where the same list without printing / validating yields one result per operation
+    from .fold import Raises
+    chains = [ i for t_ in lp.body if isinstance( t_, ast.Try ) for i in t_.body if isinstance( i, ast.If ) and RPY in names_in( i.test ) and any( isinstance( c_, ast.Constant ) and isinstance( c_.value, str ) and 'read' in c_.value for c_ in ast.walk( i.test )) ]
+    if not chains:
+        raise AnalysisError( 'connector.validate: the chain over the kinds of reply not found' )
+    for kind in ( 'read_frag', 'read_tag', 'write_frag', 'write_tag' ):
+        for status, val_ in (( 0, [ 7, 8 ] ), ( 6, [ 7 ] ), ( 8, None ), ( 5, None )):
+            write = kind.startswith( 'write' )
+            free = { n_.id for n_ in ast.walk( chains[0] ) if isinstance( n_, ast.Name ) and isinstance( n_.ctx, ast.Load ) } - { 'len', 'log', 'True', 'False', 'None' }
+            env = { n_: None for n_ in free }
+            env.update( { REQ: { kind: { 'elements': 2, 'offset': 0, 'data': [ 7, 8 ] }, 'path': {} }, RPY: { 'status': status, kind: {} }, STS: status,
+                          VAL: ( True if write and not status else val_ ), 'len': len } )
+            res.cells += 1
+            try:
+                run_block( [ chains[0] ], env, ignore_calls=( 'log', ))
+            except Raises as exc:
+                wrong.append(( kind, status, 'raises %s' % exc, 'a summary' )); continue
+            except NoFold as exc:
+                raise AnalysisError( 'connector.validate: the chain over the kinds of reply is not a decision fragment: %s' % exc )
     if wrong:
         kind, status, got, want = wrong[0]
         res.bad( src, tail[-1], 'connector.validate re-yields value %r for a %s reply with status 0x%02x, specified %r ( %d of %d cells differ )' % ( got, kind, status, want, len( wrong ), res.cells ),
@@ -2077,4 +2098,37 @@ def k_targets( ctx ):
         res.bad( src, fill[0], 'proxy.read_details completes the target %r to %r, specified %r' % bad_, 'a two-element LIST passes is_request and then fails with TypeError: the tuple form of the same target works' )
     else:
         res.ok( src, fill[0], 'a two-element target, tuple or list, is completed with units None' )
+    return res
+
+
+@rule( 'K-SEQUENCE', props=( 'C12', 'C13' ), floor=1 )
+def k_sequence( ctx ):
+    """implicit.connected_send numbers the Send Unit Data requests of a connection 0, 1, ... and wraps at the size of the wire field ( UINT ):
+    the statements that advance the counter, by value on a fresh connection, in the middle, and at the wrap.  A counter that never wraps cannot
+    be packed from the 65537th request of a connection on: the whole operation list is lost, where an explicit session yields its results."""
+    from .fold import run_block
+    res = Result( 'K-SEQUENCE' )
+    src = ctx.src( CLIENT )
+    fn = src.get( 'implicit.connected_send' )
+    adv = [ i for i in fn.body if isinstance( i, ast.If ) and any( isinstance( a, ast.Assign ) and any( isinstance( t, ast.Subscript ) and 'seq' in txt( t.value ) for t in a.targets ) for a in ast.walk( i )) ]
+    if len( adv ) != 1:
+        raise AnalysisError( 'implicit.connected_send: the statements advancing the sequence count not found' )
+    SEQ = sorted( names_in( adv[0].test ))[0]
+    table = [ a.targets[0] for a in ast.walk( adv[0] ) if isinstance( a, ast.Assign ) and isinstance( a.targets[0], ast.Subscript ) ][0]
+    TBL, CONN = dotted( table.value ), dotted( table.slice )
+    wrong = []
+    for held, want in (( {}, 0 ), ( { 'C': 0 }, 1 ), ( { 'C': 41 }, 42 ), ( { 'C': 65534 }, 65535 ), ( { 'C': 65535 }, 0 ), ( { 'D': 9 }, 0 )):
+        env = { SEQ: None, TBL: dict( held ), CONN: 'C' }
+        try:
+            run_block( adv[0].body, env )
+        except NoFold as exc:
+            raise AnalysisError( 'implicit.connected_send: advancing the sequence count is not a decision fragment: %s' % exc )
+        res.cells += 1
+        if env.get( SEQ ) != want or env[TBL].get( 'C' ) != want:
+            wrong.append(( held.get( 'C' ), env.get( SEQ ), want ))
+    if wrong:
+        res.bad( src, adv[0], 'implicit.connected_send: after sequence %r comes %r, specified %r' % wrong[0],
+                 'the Send Unit Data sequence count is a 16-bit field: it starts at 0 for a connection and wraps after 65535 - unwrapped, the 65537th request of a connection raises struct.error out of issue / operate and no operation of the list gets a result' )
+    else:
+        res.ok( src, adv[0], 'the sequence count of a connection runs 0, 1, ... 65535, 0 ( %d cells )' % res.cells )
     return res
